@@ -397,7 +397,7 @@ class Engine:
     async def run(self, loop, dbdir):
         c, w, rng = self.case, self.world, self.rng
         if c.get('colls'):
-            w.use_collisions(c['colls'], rng)
+            w.use_collisions(c['colls'], rng, kind='any')     # also families whose members pay different scripts at the same index
         grow_chain(w, c['n0'] + 1, rng, big=c.get('big'))
         self.mon.install()
         # daemon grows during initial sync
